@@ -268,33 +268,63 @@ Qed.
 (* ------------------------------------------------------------------ *)
 (* built-in members *)
 
+Lemma pres_detach fuel st c v : pres st (detach fuel st c v).
+Proof. unfold detach. destruct (reaches fuel (heap st) v c); [apply pres_dup_res|reflexivity]. Qed.
+
+Lemma pres_detach_all fuel c : forall items st, pres st (detach_all fuel st c items).
+Proof.
+  induction items as [|x tl IH]; intros st; cbn [detach_all]; [reflexivity|].
+  apply pres_bind; [apply pres_detach|]. intros x' s1 H1.
+  apply pres_bind; [apply IH|]. intros tl' s2 H2. reflexivity.
+Qed.
+
 Lemma pres_list_method fuel st l items m args : pres st (list_method fuel st l items m args).
 Proof.
   unfold list_method.
-  repeat match goal with |- pres _ (if ?c then _ else _) => destruct c eqn:? end;
-  try (pres_crush; fail).
-  - (* merge *)
-    match goal with |- context [?g args items] => set (collect := g) end.
-    destruct (collect args items); [|exact I]. unfold alloc. cbn [pres]. reflexivity.
-  - (* contains *)
-    destruct args as [|v [|? ?]]; try pd.
+  repeat match goal with
+         | |- pres _ (if (m =? ?c) then _ else _) => destruct (m =? c) eqn:?
+         | |- pres _ (if ((m =? ?c) || (m =? ?d)) then _ else _) => destruct ((m =? c) || (m =? d)) eqn:?
+         end.
+  - destruct args as [|v [|? ?]]; try pd. apply pres_bind; [apply pres_detach|]. intros; reflexivity.
+  - destruct args as [|v [|? ?]]; try pd. apply pres_bind; [apply pres_detach|]. intros; reflexivity.
+  - destruct args as [|v [|i [|? ?]]]; try pd. destruct (negb (is_num i)); [pd|].
+    apply pres_bind; [apply pres_detach|]. intros v' s1 H1.
+    destruct (insert_array items (to_int (num_bits i)) v'); [reflexivity|exact I].
+  - destruct items; cbn [pres]; reflexivity.
+  - destruct (rev items); cbn [pres]; reflexivity.
+  - destruct (negb (forallb _ args)); [pd|].
+    match goal with |- context [?g args []] => destruct (g args []) as [extra|] end; [|exact I].
+    apply pres_bind; [apply pres_detach_all|]. intros extra' s0 H0. unfold alloc. reflexivity.
+  - destruct args as [|a [|b [|? ?]]]; try pd.
+    destruct (negb (is_num a) || negb (is_num b)); [pd|].
+    match goal with |- pres _ (if ?c then _ else _) => destruct c end; [pd|].
+    destruct (nth_val items _); [|exact I]. destruct (nth_val items _); [|exact I]. cbn [pres]. reflexivity.
+  - destruct args as [|v [|? ?]]; try pd.
     apply pres_bind; [apply pres_find_eq|]. intros; reflexivity.
   - destruct args as [|v [|? ?]]; try pd.
     apply pres_bind; [apply pres_find_eq|]. intros; reflexivity.
+  - pd.
 Qed.
 
-Lemma pres_dict_method st l kvs m args : pres st (dict_method st l kvs m args).
+Lemma pres_dict_method fuel st l kvs m args : pres st (dict_method fuel st l kvs m args).
 Proof.
   unfold dict_method.
-  repeat match goal with |- pres _ (if ?c then _ else _) => destruct c eqn:? end;
-  try (pres_crush; fail).
-  match goal with |- pres _ (?g args (VDict l)) => set (go := g) end.
-  assert (H : forall a cur, pres st (go a cur)).
-  { induction a as [|x tl IH]; intros cur; simpl; [reflexivity|].
-    destruct x; try exact I. destruct cur; try pd.
-    destruct (hget st l0) as [[?|ckvs|? ?]|]; try exact I.
-    destruct (assoc_str s ckvs); [apply IH|pd]. }
-  apply H.
+  repeat match goal with
+         | |- pres _ (if (m =? ?c) then _ else _) => destruct (m =? c) eqn:?
+         end.
+  - destruct args as [|a [|b [|? ?]]]; try pd; destruct a; try pd.
+    apply pres_bind; [apply pres_detach|]. intros; reflexivity.
+  - destruct args as [|a [|? ?]]; try pd; destruct a; try pd.
+    destruct (assoc_str s kvs); cbn [pres]; reflexivity.
+  - destruct (negb (forallb _ args)); [pd|].
+    match goal with |- pres _ (?g args (VDict l)) => set (go := g) end.
+    assert (H : forall a cur, pres st (go a cur)).
+    { induction a as [|x tl IH]; intros cur; simpl; [reflexivity|].
+      destruct x; try exact I. destruct cur; try pd.
+      destruct (hget st l0) as [[?|ckvs|? ?]|]; try exact I.
+      destruct (assoc_str s ckvs); [apply IH|pd]. }
+    apply H.
+  - pd.
 Qed.
 
 Lemma pres_get_property st root m : pres st (get_property st root m).
